@@ -64,6 +64,11 @@ func genC13(t *rapid.T) C13Case {
 	cfg.ArgRefPct = 25 // named types as generic arguments: definition order matters most where types depend on each other
 	root := model.GenPackage(t, &cfg)
 	c := C13Case{Mode: rapid.SampledFrom([]string{"syntax", "syntax", "layout"}).Draw(t, "mode")}
+	lateUser, lateArg, late := 0, 0, false
+	if c.Mode == "layout" && rapid.IntRange(0, 9).Draw(t, "lateUse") < 6 {
+		// a local type whose only use is as a type argument of an imported generic type
+		lateUser, lateArg, late = model.AddLateUse(root, func(l string, n int) int { return rapid.IntRange(0, n-1).Draw(t, l) })
+	}
 	if rapid.IntRange(0, 4).Draw(t, "invalid") == 0 {
 		rule := rapid.SampledFrom(defRules).Draw(t, "rule")
 		if ok, _ := injectDef(t, rule, root); ok {
@@ -78,6 +83,28 @@ func genC13(t *rapid.T) C13Case {
 	case "layout":
 		n := len(root.Defs)
 		order := rapid.Permutation(seq(n)).Draw(t, "order")
+		switch rapid.IntRange(0, 3).Draw(t, "orderKind") {
+		case 0:
+			// dependents first: the generator builds definitions in dependency order
+			for i := range order {
+				order[i] = n - 1 - i
+			}
+		}
+		if late {
+			// put the user of the late argument before the argument
+			iu, ia := -1, -1
+			for i, d := range order {
+				if d == lateUser {
+					iu = i
+				}
+				if d == lateArg {
+					ia = i
+				}
+			}
+			if iu > ia && rapid.IntRange(0, 3).Draw(t, "lateSwap") > 0 {
+				order[iu], order[ia] = order[ia], order[iu]
+			}
+		}
 		nf := rapid.IntRange(1, 4).Draw(t, "files")
 		fileOf := make([]int, n)
 		for i := range fileOf {
